@@ -543,8 +543,9 @@ def returns_v(body, v):
     return len(body) == 1 and isinstance(body[0], ast.Return) and norm(body[0].value) == v
 
 
-FUZZ_V = (-1e6, -100, -7, -1.5, -1, -0.01, 0, 0.0, 0.01, 1, 1.5, 7, 100, 1e6)
-FUZZ_E = (0, 0.001, 0.01, 0.25)
+# the integers beyond 2**53 are not representable as floats: multiplying them by a float factor (even 1.0) moves them
+FUZZ_V = (-(2 ** 53 + 1), -1e6, -100, -7, -1.5, -1, -0.01, 0, 0.0, 0.01, 1, 1.5, 7, 100, 1e6, 2 ** 53 + 1)
+FUZZ_E = (0, 0.0, 0.001, 0.01, 0.25)
 
 
 def _spec_fuzz(name, v, e):
@@ -572,6 +573,8 @@ def fuzz_direction(p, f, want):
     bad = []
     n = 0
     for v in FUZZ_V:
+        if abs(v) > 2 ** 53:
+            continue        # float rounding alone moves these, in either direction: the comparators' exact disjunct covers them
         for e in FUZZ_E:
             try:
                 got = _fuzz_interp(p).call(f, [v, e])
@@ -640,7 +643,7 @@ def fuzz_shape(run, p, rid):
             for e in FUZZ_E:
                 fz = _spec_fuzz(helper, b, e)
                 for a in sorted({b, fz, b - 1, b + 1, (b + fz) / 2, fz - abs(fz) * 0.001 - 1e-6, fz + abs(fz) * 0.001 + 1e-6}):
-                    if a != fz and _close(a, fz):
+                    if a != fz and a != b and _close(a, fz):
                         continue
                     try:
                         got = _fuzz_interp(p).call(f, [a, b, e])
